@@ -1,0 +1,18 @@
+//go:build verif
+
+package base
+
+// Contracts for property C16 (revision cache accounting): the statistics counter. Comment-only; read by /verif/engine.
+
+//@ props C16
+
+// TRUSTED (sequential semantics of sync/atomic): the body is `atomic.AddInt64(&ai.val, value)`, an atomic
+// read-modify-write of the one field; with nothing running in between it is `ai.val += value`.
+// SgwIntStat embeds AtomicInt, so this is also the contract of SgwIntStat.Add.
+// No `requires ai != nil`: the contract binds at every statistics bump of every property; nil-ness of a counter is
+// a safety matter of the caller, not part of this frame/effect contract.
+//@ func AtomicInt.Add
+//@   trusted
+//@   inert                  // allocates nothing
+//@   modifies ai.val
+//@   ensures ai.val == old(ai.val) + value
